@@ -1,11 +1,11 @@
 """C12 — fixpoint cycles converge to the least fixpoint regardless of entry order."""
 from checks_path import *  # noqa
-from cycle_common import run_cycle
+from cycle_common import run_cycle, compare_cycle_rev
 from seq_common import replay_seq
 
 PROPERTY = 'C12'
 GEN = ['Stamp', 'LogicCycle', 'LogicVerify']
-PROPS = ['SalsaVerif.Props.C12', 'SalsaVerif.Props.GenLogicCycle', 'SalsaVerif.Props.GenLogicVerify']
+PROPS = ['SalsaVerif.Props.C12', 'SalsaVerif.Props.GenLogicCycle', 'SalsaVerif.Props.GenLogicVerify', 'SalsaVerif.Props.C12Rev']
 KNOWN = ('fb-participant-after-revalidated-head', 'fix-participant-stale-after-revalidation')
 EXPLANATION = ('Theorems about the Lean model of salsa\'s fixpoint iteration scheme (DFS with an explicit stack, provisional values, cycle '
                'heads, outermost-head iteration, per-iteration cache; bodies are monotone expressions over 8-bit sets): for well-formed programs '
@@ -23,7 +23,7 @@ ASSUMPTIONS = ['cross-revision reuse of finalised cycle results is covered by th
 
 def ties(ctx):
     n = 8000 if ctx.tier == "quick" else 150000
-    return [run_cycle(ctx, n, known_keys=KNOWN, flavours='0,4', corpus='C12')]
+    return [compare_cycle_rev(ctx, run_cycle(ctx, n, known_keys=KNOWN, flavours='0,4', corpus='C12'), 'cycle')]
 
 def search(ctx, reason):
     t = run_cycle(ctx, 200000, known_keys=KNOWN, flavours='0,4', seed_offset=97, tag='search-cycle')
